@@ -22,7 +22,9 @@ META = dict(
                 'wait; thread pool: a job runs at most once, cancel returns true iff it removed a queued job which then never runs, an '
                 'exception leaves the worker alive and the job is not re-run, a lone worker runs every queued job FIFO whatever throws, '
                 'nothing is dequeued after stop(), jobs queued at / posted after stop() never run, stop() can return only when no worker '
-                'holds a job. Tie: every guard condition of post/stop/set_event/set_timer_event/cancel_timer_event/run_one, the event-mask '
+                'holds a job; reactor layer (epoll/poll/select tables over an OS model with descriptor-number reuse and close() dropping epoll '
+                'registrations): the table equals the kernel-side interest for every open descriptor, nothing is cached for closed numbers, arming a '
+                'reused number registers it; deadline_timer object: cancel() after a re-arm from the handler cancels the new wait. Tie: every guard condition of post/stop/set_event/set_timer_event/cancel_timer_event/run_one, the event-mask '
                 'arithmetic of the readiness dispatch, the worker-loop and cancel tests of thread_pool, the would-block tests of '
                 'async_read_some/async_write_some/reader_some/writer_some and the constants io_events::in/out/err, reactor::use_*, '
                 'invalid_socket are lifted from the current source into a tiny TU, translated by cxx2v (coq/gen/Gen_C17_loop.v) and proved '
@@ -323,6 +325,31 @@ def gen_leaf_tu():
                      ('cancel\(\)', 'get_io_service().cancel_io_events(fd_);')):
         if _body(bd, r'voidbasic_io_device::%s\{' % fn) != body:
             LEAF_PROBLEMS.append('basic_io_device::%s does not forward to the event loop as modelled' % fn.split('\\')[0])
+    # ---- booster/lib/aio/src/reactor.cpp: the tables of the three back-ends (coq/C17/ReactorDefs.v r_select)
+    rc = _strip(rd('booster/lib/aio/src/reactor.cpp'))
+    ATOMS.insert(0, ('events_[fd]', 'cur'))
+    ATOMS.insert(0, ('int(map_.size())', 'mapsize'))
+    ATOMS.insert(0, ('map_[fd]', 'slot'))
+    ep = _body(rc, r'classepoll_reactor:publicbase_poll_reactor,publicbase_fast_reactor\{')
+    match('epoll_reactor::select', _body(ep, r'virtualvoidselect\(native_typefd,intflags,int&error\)\{'),
+          'if(!check(fd,error))return;if(<del>)write_flag(fd,EPOLL_CTL_DEL,0,error);elseif(<add>)write_flag(fd,EPOLL_CTL_ADD,to_poll_events(flags),error);'
+          'elseif(<mod>)write_flag(fd,EPOLL_CTL_MOD,to_poll_events(flags),error);events_[fd]=flags;',
+          [('c17_epoll_del', 'del', ['cur', 'flags']), ('c17_epoll_add', 'add', ['cur', 'flags']), ('c17_epoll_mod', 'mod', ['cur', 'flags'])])
+    if _body(ep, r'voidwrite_flag\(intfd,intop,intflags,int&error\)\{') != \
+            'structepoll_eventefd=epoll_event();efd.events=flags;efd.data.fd=fd;if(::epoll_ctl(pollfd_,op,fd,&efd)<0){error=errno;return;}':
+        LEAF_PROBLEMS.append('epoll_reactor::write_flag does not have the modelled statement list')
+    fr = _body(rc, r'classbase_fast_reactor\{')
+    match('base_fast_reactor::check', _body(fr, r'boolcheck\(intfd,int&error\)\{'),
+          'if(<neg>){error=EINVAL;returnfalse;}if(fd>=int(events_.size())){events_.resize(fd+1,0);}returntrue;', [('c17_fast_check_bad', 'neg', ['fd'])])
+    for cls, head, setexpr in (('poll_reactor', r'classpoll_reactor:publicbase_poll_reactor\{', 'entry(fd).events=to_poll_events(flags);'),
+                               ('select_reactor', r'classselect_reactor:publicreactor_impl\{', 'entry(fd).events=flags;')):
+        cb = _body(rc, head)
+        match('%s::select' % cls, _body(cb, r'virtualvoidselect\(native_typefd,intflags,int&error\)\{'),
+              'if(!check(fd,error))return;if(<rm>){remove(fd);return;}' + setexpr, [('c17_%s_is_remove' % cls, 'rm', ['flags'])])
+        match('%s::remove' % cls, _body(cb, r'voidremove\(native_typefd\)\{'),
+              'if(<absent>)return;intindex=map_[fd];std::swap(pollfds_[index],pollfds_.back());map_[pollfds_[index].fd]=index;'
+              'pollfds_.resize(pollfds_.size()-1);map_[fd]=-1;', [('c17_%s_absent' % cls, 'absent', ['fd', 'mapsize', 'slot'])])
+    del ATOMS[0:3]
     # deadline_timer: async_wait arms the loop timer with an internal handler that clears the id and calls the user handler once;
     # cancel() cancels that id once
     dt = _strip(rd('booster/lib/aio/src/deadline_timer.cpp'))
@@ -361,7 +388,9 @@ LEAF_ALL = ['c17_ev_in', 'c17_ev_out', 'c17_ev_err', 'c17_use_select', 'c17_use_
             'c17_worker_exit', 'c17_worker_take', 'c17_cancel_match',
             'c17_reader_failed', 'c17_reader_again', 'c17_read_start_wait', 'c17_writer_failed', 'c17_writer_again', 'c17_write_start_wait',
             'c17_reader_all_start_done', 'c17_reader_all_failed', 'c17_reader_all_done', 'c17_writer_all_start_done', 'c17_writer_all_failed',
-            'c17_writer_all_done', 'c17_write_all_continue']
+            'c17_writer_all_done', 'c17_write_all_continue',
+            'c17_epoll_del', 'c17_epoll_add', 'c17_epoll_mod', 'c17_fast_check_bad', 'c17_poll_reactor_is_remove', 'c17_poll_reactor_absent',
+            'c17_select_reactor_is_remove', 'c17_select_reactor_absent']
 
 GEN = {
     # guards, event-mask arithmetic and constants of event_loop_impl, see gen_leaf_tu()
@@ -369,6 +398,7 @@ GEN = {
 }
 F1 = 'lost-wakeup-interrupter-fd-number-reused'
 F2 = 'inplace-cancel-overtakes-queued-arm'
+F3 = 'deadline-timer-restart-before-cancelled-handler-ran'
 
 FDOPS1 = ('CF', 'CL', 'W', 'R', 'F', 'D', 'K')
 
@@ -588,6 +618,101 @@ def gen_spurious_case(rng):
     return '%ss 1 %s' % (rng.choice('lh'), ' '.join(toks))
 
 
+def gen_reuse_case(rng):
+    """aimed at the reactor tables (reactor.cpp) under descriptor-NUMBER reuse: a wait is armed on device f; the device is closed while
+    armed - from a phase (another thread while the loop polls: the cancel is queued, the close is immediate, so the reactor's remove runs on
+    a closed descriptor) or from a handler body (loop thread: remove runs first) - the cancelled handler is delivered; in a LATER phase a new
+    socket receives the same descriptor number (RO) and is armed with the same or a different mask; data arrives; the handler must run"""
+    k = [0]
+
+    def new():
+        k[0] += 1
+        return k[0]
+    nfd = rng.choice([1, 2, 2])
+    f = rng.randrange(nfd)
+    first = rng.choice(['I', 'I', 'RS', 'RA', 'O', 'WS'])
+
+    def armop(op):
+        kk = new()
+        return [op, str(kk), str(f)] + ([str(rng.choice([1, 2]))] if op in ('RA', 'WA') else []), kk
+    a1, k1 = armop(first)
+    ph0 = (['F', str(f)] if first in ('O', 'WS') else []) + a1
+    bodies = []
+    if rng.random() < 0.5:
+        ph1 = ['CL', str(f)]                       # closed by another thread while the loop polls
+    else:
+        p = new()
+        ph1 = ['P', str(p)]
+        bodies.append((p, ['CL', str(f)]))     # closed by the loop thread
+    second = rng.choice(['I', 'I', 'RS', 'RA', 'O', 'WS'] if rng.random() < 0.5 else [first if first in ('I', 'RS', 'RA') else 'I'])
+    a2, k2 = armop(second)
+    ph2 = ['RO', str(f)] + a2
+    data = ['W', str(f)] * rng.choice([1, 2, 3])
+    phases = [ph0, ph1] + [[] for _ in range(rng.randrange(0, 3))] + [ph2 + (data if rng.random() < 0.5 else [])] + [data, []]
+    if rng.random() < 0.3:
+        # once more: close the reused number and reuse it again
+        a3, k3 = armop(rng.choice(['I', 'RS']))
+        phases += [['CL', str(f)], [], ['RO', str(f)] + a3 + ['W', str(f)], []]
+    toks = []
+    for i, p in enumerate(phases):
+        if i:
+            toks.append('/')
+        toks += p
+    for kk, ops in bodies:
+        toks += ['[', str(kk)] + ops + [']']
+    return '%ss %d %s' % (rng.choice('lh'), nfd, ' '.join(toks))
+
+
+def gen_timerobj_case(rng):
+    """aimed at deadline_timer OBJECT state (event_id_): a handler re-arms its own timer object - from a fired and from a cancelled completion
+    (periodic / watchdog pattern) - and a later cancel() / re-arm follows; cancel() while the wait is outstanding must deliver `canceled`.
+    The restart pattern cancel(); async_wait() issued before the cancelled handler has run is finding 3 and is generated only in mode t."""
+    k = [0]
+
+    def new():
+        k[0] += 1
+        return k[0]
+    nobj = rng.choice([1, 1, 2])
+    d0 = rng.choice([5, 10, 20])
+    phases, bodies = [[]], []
+    chains = []
+    for ob in range(nobj):
+        first = new()
+        phases[0] += ['TO', str(first), str(ob), str(d0 + ob)]
+        cur = first
+        # object 1 (if any) has no re-arming handlers: it is restarted from outside, two phases after a cancel
+        for _ in range(rng.randrange(1, 4) if ob == 0 else 0):
+            nxt = new()
+            bodies.append((cur, ['TO', str(nxt), str(ob), str(rng.choice([5, 10, 10, 20]))]))
+            cur = nxt
+        chains.append(cur)
+    for _ in range(rng.randrange(2, 8)):
+        r = rng.random()
+        if r < 0.35:
+            phases.append([])
+        elif r < 0.75:
+            phases.append(['CO', str(rng.randrange(nobj))] + (['A', str(rng.choice([1, 3]))] if rng.random() < 0.2 else []))
+        elif r < 0.85:
+            phases.append(['A', str(rng.choice([3, 7, 12]))])
+        else:
+            # re-arm from outside in a phase of its own: the previous wait of the object has completed by then or is still outstanding
+            # (then this is a double arm, mode d only) - keep it legal: only after a cancel two phases earlier
+            if len(phases) >= 2 and phases[-1] == [] and phases[-2][:2] == ['CO', '1']:
+                ob = 1
+                phases.append(['TO', str(new()), str(ob), str(rng.choice([5, 10]))])
+            else:
+                phases.append([])
+    phases += [[], []]
+    toks = []
+    for i, p in enumerate(phases):
+        if i:
+            toks.append('/')
+        toks += p
+    for kk, ops in bodies:
+        toks += ['[', str(kk)] + ops + [']']
+    return '%ss 1 %s' % (rng.choice('lh'), ' '.join(toks))
+
+
 def gen_pool_case(rng):
     n = rng.randrange(1, 14)
     toks = []
@@ -669,6 +794,12 @@ def gen_cases(ctx):
         c = gen_timer_case(rng)
         for r in 'eps':
             cases.append('loop %s %s' % (r, c))
+    for _ in range(ctx.scale(120, 2000)):
+        c = gen_reuse_case(rng)
+        for r in 'eps':
+            cases.append('loop %s %s' % (r, c))
+    for _ in range(ctx.scale(150, 2000)):
+        cases.append('loop %s %s' % (rng.choice('eps'), gen_timerobj_case(rng)))
     for _ in range(ctx.scale(100, 2000)):
         c = gen_spurious_case(rng)
         for r in 'eps':
@@ -781,10 +912,10 @@ def oracle_pool(c, out):
 
 
 def oracle_loop(c, out):
-    m = re.fullmatch(r'loop sub=(\S+) log=(\S+) flags=(\S+) mode=\S+', out)
+    m = re.fullmatch(r'loop sub=(\S+) log=(\S+) cancels=(\S+) flags=(\S+) mode=\S+', out)
     if not m:
         return ('bad-output-loop', 'unexpected harness answer ' + out[:200])
-    subs, log, flags = parse_list(m.group(1)), parse_list(m.group(2)), parse_list(m.group(3))
+    subs, log, cancels, flags = parse_list(m.group(1)), parse_list(m.group(2)), parse_list(m.group(3)), parse_list(m.group(4))
     special = c[2][2:3]
     for f in flags:
         if f == 'LOSTWAKE' and special == 'r':
@@ -799,6 +930,9 @@ def oracle_loop(c, out):
         if f == 'SLEPTPAST':
             return ('timer-overslept', 'the loop went to sleep in the reactor for longer than the time left to the deadline of an armed timer '
                     '(poll timeout computed wrongly, or a timer armed as the new earliest while polling did not wake the loop)')
+        if f == 'MISSEDREADY':
+            return ('readable-armed-descriptor-not-reported', 'the loop went to sleep for ever although an open descriptor with unread input had a read '
+                    'wait outstanding (the reactor did not register / report the descriptor - e.g. a stale cached mask for a reused descriptor number)')
         if f == 'LOSTWAKE':
             return ('lost-wakeup', 'the loop went to sleep for ever although a posted handler was waiting in the dispatch queue')
         if f == 'OVERRUN':
@@ -860,6 +994,18 @@ def oracle_loop(c, out):
         else:
             if code not in ('ok', 'can', 'self', 'sys9'):
                 return ('io-bad-code', 'io handler %s completed with %s' % (k, code))
+    # deadline_timer::cancel() issued while the wait was certainly outstanding (deadline in the future): the handler is told `canceled`
+    codes = {}
+    for e in log:
+        codes[e.split(':')[0]] = e.split(':')[1].split('@')[0]
+    for cn in cancels:
+        k = cn.split('@')[0]
+        if codes.get(k) != 'can' and special == 't':
+            return (F3, 'deadline_timer restarted (cancel(); async_wait()) before the cancelled handler of the previous wait had run: that handler then '
+                    'wiped the id of the NEW wait, cancel() of the new wait was a silent no-op and handler %s completed with %s' % (k, codes.get(k)))
+        if codes.get(k) != 'can':
+            return ('timer-cancel-ignored', 'deadline_timer::cancel() was called at %s while the wait of handler %s was outstanding (deadline in the future) '
+                    'but the handler completed with %s instead of canceled' % (cn.split('@')[1], k, codes.get(k, 'nothing')))
     if strict:
         for k in kinds:
             if cnt.get(k, 0) != 1 and special == 'q':
@@ -908,7 +1054,7 @@ def run(ctx):
     errs = vlib.gen_coq(GEN)
     for n, e in errs:
         ctx.broke('translator cxx2v failed on %s (tie to source broken)' % n, e)
-    res = vlib.coq_props('C17', extra_files=['C17/Link.v'])
+    res = vlib.coq_props('C17', extra_files=['C17/Link.v', 'C17/LinkReactor.v'])
     ctx.proof(res)
     ctx.coverage['trusted_base'] = [
         'Coq 8.16.1 kernel',
@@ -944,7 +1090,9 @@ def run(ctx):
         'cases are scripts. loop <reactor e|p|s> <pick l|h + mode s|d (+ r|q for the two known findings)> <nfd> phase0 / phase1 / ... '
         '[ k body ] ...: operations P post, T/U arm deadline_timer / raw timer (relative deadline, may be 0 or negative), CT cancel timer, '
         'I/O wait readable/writable on socketpair f (stream_socket::on_readable/on_writeable), RS/WS stream_socket::async_read_some/async_write_some '
-        '(user handler checked for a positive byte count on success and 0 on failure), CF cancel, CL close, W/R/F/D/K make the peer '
+        '(user handler checked for a positive byte count on success and 0 on failure), CF cancel, CL close, RO f a new socket that receives the '
+        'descriptor NUMBER of the closed device f (dup2) is assigned to the device, TO k obj d / CO obj arm / cancel() the deadline_timer OBJECT obj '
+        '(handlers may re-arm their own object; effective cancels are reported and must complete with canceled), W/R/F/D/K make the peer '
         'write / read / fill / drain / hang up, A advance the virtual clock, X stop (+reset and run again). Phase 0 runs before the loop '
         '(no reactor: deferred), phase i runs inside the i-th reactor poll (other-thread path: deferred + self-pipe wake-up), a body runs '
         'inside handler k (in-place path). Every random script is run under epoll, poll and select. Mode s scripts keep at most one '
@@ -960,7 +1108,7 @@ def run(ctx):
     def canon_batch(line):
         # batch mode (pick letter a): run_one shuffles the events of one poll (randomize_events), so completions of
         # descriptor waits that are adjacent in the log and carry the same time are compared as a set
-        m = re.fullmatch(r'(loop sub=(\S+) log=)(\S+)( flags=\S+ mode=a\S*)', line)
+        m = re.fullmatch(r'(loop sub=(\S+) log=)(\S+)( cancels=\S+ flags=\S+ mode=a\S*)', line)
         if not m or m.group(3) == '-':
             return line
         io = set(x.split(':')[0] for x in m.group(2).split(',') if x.split(':')[1][0] in 'iorwRW') if m.group(2) != '-' else set()
